@@ -94,6 +94,9 @@ fn real_main() {
                 "soft" => solve::gen_case(&mut crng, gen::Kind::Soft),
                 "lazy" => solve::gen_case(&mut crng, gen::Kind::Lazy),
                 "cancel" => solve::gen_cancel_case(&mut crng),
+                "reuse" => solve::gen_reuse_case(&mut crng, false),
+                "reuse-async" => solve::gen_reuse_case(&mut crng, true),
+                "async" => solve::gen_async_case(&mut crng),
                 "conflictfree" => solve::gen_case(&mut crng, gen::Kind::ConflictFree),
                 f => panic!("unknown family {f}"),
             },
@@ -110,7 +113,7 @@ fn real_main() {
             "amo" => guarded(move || amo::run_case(&l2)),
             "cache" => guarded(move || cache::run_case(&l2)),
             "pool" => guarded(move || pool::run_case(&l2)),
-            "solve" | "soft" | "conflictfree" | "lazy" | "cancel" => guarded(move || solve::run_case(&l2)),
+            "solve" | "soft" | "conflictfree" | "lazy" | "cancel" | "reuse" | "reuse-async" | "async" => guarded(move || solve::run_case(&l2)),
             f => panic!("unknown family {f}"),
         };
         writeln!(impl_f, "case {i} {family}").unwrap();
